@@ -1,29 +1,320 @@
-"""C12 — Builder calls never panic, failed calls change nothing, structure is enforced.
-K: one arbitrary call (17 call kinds covering begin/end function, begin block, terminators, block instructions,
-parameter, module-level instruction, variable/undef/line/no_line, select_function/select_block with any index,
-pop_instruction, insertion points with offsets within the block, id()) from an arbitrary state that satisfies the
-invariant the property states, over module shapes (functions x blocks x instructions); the invariant is re-checked
-after the call, so invariant + step covers call histories of any length on these shapes."""
-import kani
+"""C12 (and the id part of C13) — Builder calls never panic, failed calls change nothing, structure is enforced.
+
+M2: the Builder's hand-written methods (and the generated `ret`/`nop`/`insert_*` wrappers over them) are executed
+symbolically from MIR — everything under `dr::build` is inlined from its own MIR, `dr::Instruction::new` included,
+`CoreInstructionTable::get` replaced by its contract (C09) — from EVERY state of a family of module shapes that satisfies
+the invariant the property states (selection designates an existing function and block, or nothing), with the id counter
+symbolic, for every call of the property's list with every Option / index / insertion-point argument enumerated.
+Each path must return (no panic edge), answer Ok/Err as the property says, re-establish the invariant, leave the module
+value untouched on Err, and obey the id discipline (z3 over the counter). Invariant + step => call histories of any length.
+Violating paths are replayed natively through the scenario crate (the K scenario `builder_step_*`)."""
+import re
+import z3
+import sym
+import mir
+import tables
+import reg as regmod
+from common import mir_path, Inconclusive, Replay
+from smt import Q
+import c05
 
 LEVEL = "model_checking"
-SHAPES_QUICK = ["0_0_0", "1_0_0", "1_1_1", "2_1_1"]
-SHAPES_THOROUGH = ["0_0_0", "1_0_0", "1_1_0", "1_1_1", "2_1_1", "2_2_1"]
+
+# (NF, NB of function 0, NB of the others, NI) — the shapes the native scenario crate also knows
+SHAPES_QUICK = [(0, 0, 0, 0), (1, 0, 0, 0), (1, 1, 0, 1), (2, 1, 0, 1)]
+SHAPES_THOROUGH = SHAPES_QUICK + [(1, 1, 0, 0), (2, 2, 1, 1)]
+
+# call ids follow /verif/kani/src/builder.rs
+GROUPS = [[0, 1, 2, 5], [3, 4, 13, 14, 16], [6, 7, 8, 9, 10], [11, 12, 15]]
+
+
+def m_inline_builder(engine, st, fr, callee, args, ops):
+    name = re.match(r"^(?:\w+::)*Builder::(\w+)(?:::<.*>)?$", callee).group(1)
+    for mf in engine.mirs:
+        c = [x for x in mf.find(name) if "dr/build/" in x[0] and "closure" not in x[0]]
+        if len(c) == 1:
+            return sym.Inline(mf.parse_item(c[0][2]), args)
+    raise mir.Unsupported("cannot resolve Builder::%s" % name)
+
+
+def m_inline_new(engine, st, fr, callee, args, ops):
+    ty = re.match(r"^(?:\w+::)*(\w+)::new$", callee).group(1)
+    for mf in engine.mirs:
+        c = [x for x in mf.find("new") if re.search(r"\) -> (\w+::)*%s \{$" % ty, mf.lines[x[2]]) and "constructs" in x[0]]
+        if len(c) == 1:
+            return sym.Inline(mf.parse_item(c[0][2]), args)
+    raise mir.Unsupported("cannot resolve %s" % callee)
+
+
+def m_table_get(engine, st, fr, callee, args, ops):
+    cell = ("h", engine.fresh_name("class"))
+    st.mem[cell] = sym.Adt("grammar::Instruction", None, [sym.StrV("?"), args[0], sym.Sym("caps", "&[Capability]"),
+                                                         sym.Sym("exts", "&[&str]"), sym.Sym("ops", "&[LogicalOperand]")])
+    return sym.Ref(cell, ())
+
+
+MODELS = [
+    (r"^(\w+::)*Builder::\w+(::<.*>)?$", m_inline_builder),
+    (r"^(\w+::)*(Instruction|Function|Block|Module|ModuleHeader)::new$", m_inline_new),
+    (r"CoreInstructionTable::get$", m_table_get),
+    (r"^version::create_word_from_version$", lambda e, s, f, c, a, o: sym.Inline(e.resolve_fn("create_word_from_version"), a)),
+]
+
+
+def none():
+    return sym.Adt("Option", "None", [])
+
+
+def some(v):
+    return sym.Adt("Option", "Some", [v])
+
+
+def vec(items):
+    return sym.Arr(items, "vec")
+
+
+def make_state(shape, sel_f, sel_b, next_id, fields):
+    nf, nb0, nb1, ni = shape
+    funcs = []
+    for f in range(nf):
+        blocks = []
+        for b in range(nb0 if f == 0 else nb1):
+            insts = [sym.Sym("inst_%d_%d_%d" % (f, b, i), "Instruction") for i in range(ni)]
+            blk = {"label": some(sym.Sym("label_%d_%d" % (f, b), "Instruction")), "instructions": vec(insts)}
+            blocks.append(sym.Adt("Block", None, [blk[n] for n in fields["Block"]]))
+        fn = {"def": some(sym.Sym("def_%d" % f, "Instruction")), "end": none(), "parameters": vec([]), "blocks": vec(blocks)}
+        funcs.append(sym.Adt("Function", None, [fn[n] for n in fields["Function"]]))
+    mod = {}
+    for n in fields["Module"]:
+        mod[n] = vec([])
+    mod["header"] = none()
+    mod["memory_model"] = none()
+    mod["functions"] = vec(funcs)
+    module = sym.Adt("Module", None, [mod[n] for n in fields["Module"]])
+    usz = lambda x: none() if x is None else some(z3.BitVecVal(x, 64))
+    b = {"module": module, "next_id": next_id, "selected_function": usz(sel_f), "selected_block": usz(sel_b)}
+    return sym.Adt("Builder", None, [b[n] for n in fields["Builder"]])
+
+
+def same(a, b):
+    if a is b:
+        return True
+    if z3.is_expr(a) and z3.is_expr(b):
+        return a.eq(b)
+    if isinstance(a, sym.Sym) and isinstance(b, sym.Sym):
+        return a.name == b.name and a.over.keys() == b.over.keys() and all(same(a.over[k], b.over[k]) for k in a.over)
+    if isinstance(a, sym.Adt) and isinstance(b, sym.Adt):
+        return a.variant == b.variant and len(a.fields) == len(b.fields) and all(same(x, y) for x, y in zip(a.fields, b.fields))
+    if isinstance(a, sym.Arr) and isinstance(b, sym.Arr):
+        return len(a.items) == len(b.items) and all(same(x, y) for x, y in zip(a.items, b.items))
+    if isinstance(a, sym.Unit) and isinstance(b, sym.Unit):
+        return True
+    if isinstance(a, sym.StrV) and isinstance(b, sym.StrV):
+        return a.s == b.s
+    return False
+
+
+def optval(v):
+    if v.variant == "None":
+        return None
+    x = z3.simplify(v.fields[0])
+    return x.as_long() if z3.is_bv_value(x) else x
+
+
+def calls_for(shape, sel_f, sel_b):
+    """(call id, label, method, extra args builder, raw args for the native scenario)"""
+    nf, nb0, nb1, ni = shape
+    nbsel = (nb0 if sel_f == 0 else nb1) if sel_f is not None else 0
+    w = z3.BitVec("w", 32)
+    u = lambda n: z3.BitVecVal(n, 64)
+    out = []
+    for explicit in (False, True):
+        ex = some(w) if explicit else none()
+        a0 = 1 if explicit else 0
+        out.append((0, "begin_function(%s)" % ("Some" if explicit else "None"), "begin_function",
+                    [z3.BitVecVal(7, 32), ex, z3.BitVec("ctl", 32), z3.BitVecVal(8, 32)], (a0, 0, 0)))
+        out.append((2, "begin_block(%s)" % ("Some" if explicit else "None"), "begin_block", [ex], (a0, 0, 0)))
+        out.append((7, "variable(%s)" % ("Some" if explicit else "None"), "variable",
+                    [z3.BitVecVal(9, 32), ex, z3.BitVec("sc", 32), none()], (a0, 0, 0)))
+        out.append((8, "undef(%s)" % ("Some" if explicit else "None"), "undef", [z3.BitVecVal(9, 32), ex], (a0, 0, 0)))
+    out.append((1, "end_function", "end_function", [], (0, 0, 0)))
+    out.append((3, "ret", "ret", [], (0, 0, 0)))
+    out.append((4, "nop", "nop", [], (0, 0, 0)))
+    out.append((5, "function_parameter", "function_parameter", [z3.BitVecVal(9, 32)], (0, 0, 0)))
+    out.append((6, "capability", "capability", [z3.BitVec("cap", 32)], (0, 0, 0)))
+    out.append((9, "line", "line", [z3.BitVecVal(3, 32), z3.BitVec("l", 32), z3.BitVec("c", 32)], (0, 0, 0)))
+    out.append((10, "no_line", "no_line", [], (0, 0, 0)))
+    for idx in [None] + list(range(nf + 2)):
+        out.append((11, "select_function(%s)" % idx, "select_function", [none() if idx is None else some(u(idx))],
+                    (0 if idx is None else 1, idx or 0, 0)))
+    for idx in [None] + list(range(max(nb0, nb1) + 2)):
+        out.append((12, "select_block(%s)" % idx, "select_block", [none() if idx is None else some(u(idx))],
+                    (0 if idx is None else 1, idx or 0, 0)))
+    out.append((13, "pop_instruction", "pop_instruction", [], (0, 0, 0)))
+    cur_len = ni if sel_b is not None else 0
+    for kind, nm in ((0, "Begin"), (1, "End")):
+        out.append((14, "insert_nop(%s)" % nm, "insert_nop", [sym.Adt("build::InsertPoint", nm, [])], (0, 0, kind)))
+        out.append((16, "insert_ret(%s)" % nm, "insert_ret", [sym.Adt("build::InsertPoint", nm, [])], (0, 0, kind)))
+    for off in range(cur_len + 1):
+        out.append((14, "insert_nop(FromBegin(%d))" % off, "insert_nop", [sym.Adt("build::InsertPoint", "FromBegin", [u(off)])], (0, off, 2)))
+        out.append((14, "insert_nop(FromEnd(%d))" % off, "insert_nop", [sym.Adt("build::InsertPoint", "FromEnd", [u(off)])], (0, off, 3)))
+    out.append((15, "id", "id", [], (0, 0, 0)))
+    return out
+
+
+def expect_ok(call, fn_open, blk_open, shape, sel_f, args_raw):
+    nf, nb0, nb1, ni = shape
+    nbsel = (nb0 if sel_f == 0 else nb1) if sel_f is not None else 0
+    if call == 0:
+        return not fn_open
+    if call in (1, 5):
+        return fn_open
+    if call == 2:
+        return fn_open and not blk_open
+    if call in (3, 4, 14, 16):
+        return blk_open
+    if call == 13:
+        return blk_open and ni > 0
+    if call == 11:
+        return args_raw[0] == 0 or args_raw[1] < nf
+    if call == 12:
+        return args_raw[0] == 0 or (fn_open and args_raw[1] < nbsel)
+    return True
 
 
 def run(ctx):
+    q = Q(ctx, cross_every=500)
+    registry = regmod.build_registry()
+    mf = mir.MirFile(mir_path("rspirv"))
+    ms = mir.MirFile(mir_path("spirv"))
+    fields = {
+        "Module": c05.struct_fields("rspirv/dr/constructs.rs", "Module"),
+        "Function": c05.struct_fields("rspirv/dr/constructs.rs", "Function"),
+        "Block": c05.struct_fields("rspirv/dr/constructs.rs", "Block"),
+        "Builder": c05.struct_fields("rspirv/dr/build/mod.rs", "Builder"),
+    }
     shapes = SHAPES_QUICK if ctx.tier == "quick" else SHAPES_THOROUGH
-    hs = ["k_builder_step_" + s for s in shapes]
-    ctx.bounds += ["module shapes (functions_blocks_instructions): %s; selection any Option<usize> x Option<usize> satisfying the invariant; next_id any u32 in 1..=0xfffffff0" % shapes,
-                   "one call of 17 kinds with arbitrary arguments (explicit/implicit ids, any selection index, insertion offsets <= block length)"]
-    ctx.assumptions += ["precondition = the property's own invariant: a selected block implies a selected function, both indices in range",
-                        "CoreInstructionTable::get is stubbed by its contract get(op).opcode == op (discharged by C09)",
-                        "outside: id counter exhaustion (next_id > 0xfffffff0); insertion offsets beyond the block length; shapes larger than 2x2x1"]
-    ctx.trusted += ["Kani 0.68 / CBMC 6.11, unwinding assertions on", "hook Builder::verif_from_parts / verif_next_id"]
-    ctx.functions.update(["rspirv::dr::Builder::{begin_function,end_function,begin_block,ret,insert_ret,nop,insert_nop,function_parameter,capability,variable,undef,line,no_line,select_function,select_block,pop_instruction,id,insert_into_block,insert_end_block}"])
-    res = kani.run_many(hs, cap_s=600 if ctx.tier == "quick" else 2400)
-    kani.settle(ctx, res, lambda h: h[2:])
-    ctx.extra["states"] = sum(r.checks_total for r in res.values()) or 1
-    ctx.extra["transitions"] = 17 * len(hs)
-    ctx.extra["harness_times_s"] = {h: round(r.time, 1) for h, r in res.items()}
-    ctx.extra["explanation"] = "CBMC decides, for every state of the stated shapes satisfying the invariant and every call, the post-conditions and the invariant."
+    ctx.bounds += ["module shapes (functions, blocks of function 0, blocks of the other functions, instructions per block): %s" % shapes,
+                   "every selection satisfying the invariant; id counter any u32 in 1..=0xfffffff0; every call of the list with every Option/index/"
+                   "insertion-point argument (indices up to len+1, offsets within the block); one call per state (inductive step)"]
+    ctx.assumptions += ["precondition = the property's invariant: a selected block implies a selected function, both indices in range",
+                        "CoreInstructionTable::get replaced by its contract get(op).opcode == op (discharged by C09)",
+                        "outside: id counter exhaustion; insertion offsets beyond the block length; shapes beyond those listed"]
+    ctx.trusted += ["rustc MIR", "mirsym and its std models (Vec::{push,insert,pop,len,index}, Option::*, the vec! literal lowering)", "z3"]
+    nid = z3.BitVec("next_id", 32)
+    pre = [z3.UGE(nid, 1), z3.ULE(nid, 0xfffffff0)]
+    rp = Replay()
+    npaths = 0
+    nstates = 0
+    bidx = {n: i for i, n in enumerate(fields["Builder"])}
+    for shape in shapes:
+        nf, nb0, nb1, ni = shape
+        sels = [(None, None)]
+        for f in range(nf):
+            sels.append((f, None))
+            for b in range(nb0 if f == 0 else nb1):
+                sels.append((f, b))
+        for sel_f, sel_b in sels:
+            nstates += 1
+            for call, label, method, args, raw_args in calls_for(shape, sel_f, sel_b):
+                eng = sym.Engine([mf, ms], registry, models=MODELS, eager=True, loop_bound=6)
+                b0 = make_state(shape, sel_f, sel_b, nid, fields)
+                c = [x for x in mf.find(method) if "dr/build/" in x[0] and "closure" not in x[0]]
+                if len(c) != 1:
+                    raise Inconclusive("Builder::%s: %d MIR candidates" % (method, len(c)))
+                fn = mf.parse_item(c[0][2])
+                res = eng.run(fn, [sym.Ref(("h", "b"), (), True)] + args, mem={("h", "b"): b0}, pc=list(pre))
+                ctx.functions.update(eng.stats.functions)
+                name = "builder/%s/sel=%s,%s/%s" % ("_".join(map(str, shape)), sel_f, sel_b, label)
+                for r in res:
+                    npaths += 1
+                    bad = check_path(q, r, b0, bidx, fields, shape, sel_f, sel_b, call, raw_args, nid, args)
+                    if bad is None:
+                        ctx.ob(name, True)
+                        continue
+                    # native replay through the scenario crate
+                    w = bad[2] if len(bad) > 2 else 5
+                    grp = [g for g in range(4) if call in GROUPS[g]][0]
+                    raw = bytes([0 if sel_f is None else 1, sel_f or 0, 0 if sel_b is None else 1, sel_b or 0]) + \
+                        int(w).to_bytes(4, "little") + bytes([GROUPS[grp].index(call), raw_args[0], raw_args[1], raw_args[2]]) + (0x1234).to_bytes(4, "little")
+                    scen = "builder_step_%d_%d_%d_%d_g%d" % (nf, nb0, nb1, ni, grp)
+                    real = rp.ask("scenario %s %s" % (scen, raw.hex()))
+                    code = real.get("code")
+                    if "panic" in real or (code is not None and code >= 100):
+                        import kani
+                        what = "panic: %s (%s)" % (real.get("panic"), real.get("at")) if "panic" in real else kani.code_names().get(code, str(code))
+                        ctx.ob(name, False, "%s; native: %s" % (bad[1], what))
+                        ctx.violation("builder/%s/%s" % (method, bad[0]),
+                                      "shape %s, selection (%s, %s), next_id=%d: %s -> %s; on the compiled crate: %s" % (shape, sel_f, sel_b, w, label, bad[1], what),
+                                      {"cmd": "scenario %s %s" % (scen, raw.hex()), "real": real})
+                    else:
+                        ctx.ob(name, None, "model reports '%s' but the compiled crate does not (%s)" % (bad[1], real))
+    rp.close()
+    ctx.validated = rp.count
+    ctx.extra["states"] = nstates
+    ctx.extra["transitions"] = npaths
+    ctx.extra["cvc5"] = q.summary()
+    ctx.extra["explanation"] = ("Every (shape, valid selection, call) triple is executed symbolically from the Builder's MIR with the id counter symbolic; "
+                                "post-conditions and invariant checked per path; counter arithmetic by z3.")
+
+
+def check_path(q, r, b0, bidx, fields, shape, sel_f, sel_b, call, raw_args, nid, args):
+    """None if fine, else (role, description[, witness next_id])."""
+    fn_open, blk_open = sel_f is not None, sel_b is not None
+    if r.status != "return":
+        st, m = q.check(r.pc, "panic-reachable")
+        if st == "unsat":
+            return None
+        w = m.eval(nid, model_completion=True).as_long() if st == "sat" else 5
+        return ("panics", "%s: %s" % (r.status, r.info), w)
+    b1 = r.mem[("h", "b")]
+    val = r.value
+    ok = not (isinstance(val, sym.Adt) and val.variant == "Err")
+    exp = expect_ok(call, fn_open, blk_open, shape, sel_f, raw_args)
+    if ok and not exp:
+        return ("accepts-what-must-fail", "returns %r" % (val,))
+    if not ok and exp:
+        return ("rejects-what-must-succeed", "returns %r" % (val,))
+    # invariant
+    mod1 = b1.fields[bidx["module"]]
+    funcs = mod1.fields[fields["Module"].index("functions")]
+    f1 = optval(b1.fields[bidx["selected_function"]])
+    bl1 = optval(b1.fields[bidx["selected_block"]])
+    if f1 is None and bl1 is not None:
+        return ("invariant/block-without-function", "afterwards selected_block=%s but no function is selected" % bl1)
+    if f1 is not None:
+        if not isinstance(f1, int) or f1 >= len(funcs.items):
+            return ("invariant/function-index", "afterwards selected_function=%s of %d" % (f1, len(funcs.items)))
+        blocks = funcs.items[f1].fields[fields["Function"].index("blocks")]
+        if bl1 is not None and (not isinstance(bl1, int) or bl1 >= len(blocks.items)):
+            return ("invariant/block-index", "afterwards selected_block=%s of %d" % (bl1, len(blocks.items)))
+    if not ok and not same(mod1, b0.fields[bidx["module"]]):
+        return ("failed-call-changed-module", "returns Err but the module differs")
+    if ok and call in (3, 16) and bl1 is not None:
+        return ("terminator-left-block-open", "selected_block=%s after a terminator" % bl1)
+    if ok and call == 1 and f1 is not None:
+        return ("end_function-left-function-open", "selected_function=%s after end_function" % f1)
+    # id discipline: the counter never goes back; allocating calls return the old counter and advance it by one
+    n1 = b1.fields[bidx["next_id"]]
+    st, m = q.check(r.pc + [z3.ULT(n1, nid)], "counter-monotone")
+    if st == "sat":
+        return ("id-counter-went-back", "next_id decreases", m.eval(nid, model_completion=True).as_long())
+    explicit = raw_args[0] == 1 and call in (0, 2, 7, 8)
+    allocating = ok and ((call in (0, 2, 7, 8) and not explicit) or call in (5, 15))
+    if ok:
+        want_next = nid + 1 if allocating else nid
+        st, m = q.check(r.pc + [n1 != want_next], "counter-step")
+        if st == "sat":
+            return ("id-counter-step", "next_id is not old%s" % ("+1" if allocating else ""), m.eval(nid, model_completion=True).as_long())
+        rid = None
+        if call in (0, 2, 5):
+            rid = val.fields[0] if isinstance(val, sym.Adt) and val.variant == "Ok" else None
+        elif call in (7, 8, 15):
+            rid = val
+        if rid is not None and z3.is_bv(rid):
+            want = nid if allocating else (args[1].fields[0] if call in (0, 7, 8) else args[0].fields[0]) if explicit else nid
+            st, m = q.check(r.pc + [rid != want], "returned-id")
+            if st == "sat":
+                return ("returned-id", "returned id is not %s" % ("the old counter" if allocating else "the explicit id"),
+                        m.eval(nid, model_completion=True).as_long())
+    return None
